@@ -246,6 +246,21 @@ impl StateCheck for C10 {
             d2.push(&b);
             try_text(render(&other, &d2, &keep), "split", out);
             out.regime("split");
+            // ... an output line written as a gross figure and a correction of the opposite sign (outputs may be negative)
+            if data[i].tags.iter().any(|t| t == "SALIDA") {
+                let a = DataLine { id: data[i].id, tags: data[i].tags.clone(), vals: data[i].vals.iter().map(|v| v * 2.0).collect(), comment: data[i].comment.clone() };
+                let b = DataLine { id: data[i].id, tags: data[i].tags.clone(), vals: data[i].vals.iter().map(|v| -v).collect(), comment: data[i].comment.clone() };
+                let mut d2: Vec<&DataLine> = vec![];
+                for (j, d) in refs.iter().enumerate() {
+                    if j == i {
+                        d2.push(&a);
+                    } else {
+                        d2.push(d);
+                    }
+                }
+                d2.push(&b);
+                try_text(render(&other, &d2, &keep), "split_gross_and_correction", out);
+            }
             // ... and split by time: the first steps in one line, the remaining steps in the other (a seasonal split)
             if data[i].vals.len() >= 2 {
                 let h = data[i].vals.len() / 2;
